@@ -18,6 +18,11 @@
 (*                                                                                                             *)
 (* Abstract data.  An id is a sequence of blocks (a block = 16 hex digits of a trace id, 8 of a span id);       *)
 (* W blocks make a full id, fewer a short one that needs left padding; block "0" is all zeros, "f" all f's.     *)
+(* A block of LowBlocks is a block whose VALUE has leading zero digits and an ODD number of significant digits   *)
+(* (e.g. 00000abc).  A Zipkin body carries its SPELLING of the ids: "padded" = every block written with all its   *)
+(* digits, "stripped" = the id written without its leading zero digits (what a client using %x prints: a short    *)
+(* id, possibly with an odd number of digits, a single "0" for a zero id), "any" = left to the binding's sampler. *)
+(* The value of an id, hence everything the statement demands, does not depend on the spelling.                  *)
 (* Strings starting with "@" are atoms the binding replaces by hostile concrete strings / numbers.              *)
 (* Times are small naturals the binding maps affinely onto real epoch times.                                    *)
 (***************************************************************************************************************)
@@ -60,6 +65,23 @@ Tag(path, v) == [k |-> path, v |-> v]
 ----------------------------------------------------------------------------------------------------------------
 (* decodeHexStr(hexStr, leng): shorter -> left padded with '0'; then cut to leng; hex decoded *)
 DecodeHex(id) == LET p == IF Len(id) < W THEN Zeros(W - Len(id)) \o id ELSE id IN SubSeq(p, 1, W)
+
+(* the spelling of an id on the wire (Zipkin): which blocks are written at all, and whether the text has an odd    *)
+(* number of hex digits.  decodeHexStr (writer) and decodeParentId (reader) both left-pad the TEXT with '0' digits  *)
+(* to the full width, so the value they decode is DecodeHex(id) whatever the spelling: the mechanism below is       *)
+(* spelling-free, and the binding demands the same rows / read-back for every spelling of a body.                 *)
+LowBlocks == {"l1", "l2", "l3"}
+Spellings == {"any", "padded", "stripped"}
+RECURSIVE Significant(_)
+Significant(id) == IF id = <<>> THEN <<>> ELSE IF Head(id) = "0" THEN Significant(Tail(id)) ELSE id
+WrittenBlocks(id, spell) == IF spell = "stripped" THEN (IF Significant(id) = <<>> /\ id # <<>> THEN <<"0">> ELSE Significant(id)) ELSE id
+OddDigits(id, spell) == /\ spell = "stripped" /\ id # <<>>
+                        /\ \/ Significant(id) = <<>>                       \* the single digit "0"
+                           \/ Head(WrittenBlocks(id, spell)) \in LowBlocks
+(* the fields of Zipkin span n written with an odd number of digits *)
+OddFields(s, spell) == {f \in {"traceId", "id", "parentId"} :
+                          /\ \E k \in DOMAIN s.order : s.order[k] = f
+                          /\ OddDigits(CASE f = "traceId" -> s.tid [] f = "id" -> s.sid [] f = "parentId" -> s.parent, spell)}
 
 Present(s, key) == \E k \in DOMAIN s.order : s.order[k] = key
 
